@@ -25,7 +25,6 @@
   Core Lean only.
 -/
 import NngModel.Base.Bytes
-import NngModel.Generated.Consts
 namespace Nng.HostileSpec
 open Nng
 
